@@ -35,7 +35,7 @@ PROBES = ["fault-answer-no", "fault-echo-other", "fault-garble", "fault-garble-s
           "fault-odd-unlock-value", "fault-short-bank", "fault-foreign-frame", "readonly-refused", "device-addressing",
           "ignore-feedback", "short-string-write", "initially-unlocked", "value-level-write-int", "value-level-write-mask",
           "value-level-write-tmask", "value-level-write-str", "value-level-write-out-of-range", "raw-data-longer-than-the-value",
-          "earlier-calls-in-same-process"]
+          "earlier-calls-in-same-process", "value-level-write-without-conversion", "bank-latch", "bank-unlatch"]
 DOCUMENTED = (MemoryLocationNotWriteable, MemoryWriteFailure, MemoryWriteError, ResponseError)
 
 
@@ -79,16 +79,29 @@ def gen_base(seed, tier="quick"):
                 opts += [["int", r.choice([lo, hi, hi - 1, r.randrange(lo, hi + 1), r.randrange(lo, hi + 1)])]] * 2
                 # a number that does not fit the value's locations cannot be written: it has to be refused
                 opts += [["int-bad", r.choice([hi + 1, lo - 1, hi + 1 + r.getrandbits(12), (hi + 1) * 256 + 5, -1 if lo == 0 else lo - 300])]]
-        elif is_str:
+        elif not issubclass(v, (location.NumericValue, location.StringValue)):
+            # a value type without a conversion of its own (LightDistributionType): the library documents none,
+            # so a value-level write cannot be carried out - it has to be refused, whatever is passed
+            opts.append(["noconv", r.choice([1, True, 0, 5, 255])])
+        if is_str:
             sl = r.choice([0, 1, n - 1, n, r.randrange(0, n + 1)])
             opts.append(["str", "".join(chr(r.randrange(0x20, 0x7F)) for _ in range(sl))])
         if opts:
             via = r.choice(opts)
-            raw = list(expected_raw(v, via)) if via[0] != "int-bad" else []
+            raw = list(expected_raw(v, via)) if via[0] not in ("int-bad", "noconv") else []
     elif not ro and v.name != "LockByte" and r.random() < 0.06:
         # more data than the value has locations - with and without allow_short_write: refused before anything is sent
         via = ["raw-too-long", [r.randrange(256) for _ in range(n + r.choice([1, 1, 2, 7]))], r.random() < 0.6]
     h = plans.rng_for(seed, PROP + "-history")
+    if h.random() < 0.04:
+        # the bank-level write helpers: latch() / unlatch() write the lock byte of *that* bank, whatever the
+        # unit's DTR1 points at beforehand
+        return {"engine": "busim", "property": PROP, "seed": seed, "bank_op": h.choice(["latch", "unlatch"]),
+                "bank": h.choice(["202", "203", "204", "205", "206"]), "value": "LockByte", "raw": [], "via": None,
+                "prelude": None, "short_write": False, "lock": h.choice([0xFF, 0xAA, 0x55, 0x00]),
+                "kind": h.choice(["gear", "gear", "device"]), "short": h.randrange(64), "ignore_feedback": False,
+                "force_unlock": False, "pattern": "random", "fault": None, "readonly": True,
+                "dtr1": h.choice([0, 1, 207, 202, 205, h.randrange(256)])}
     prelude = None
     if h.random() < 0.2:
         strs = [(k_, vv.name) for k_, vv in memsim.WRITABLE_VALUES if issubclass(vv, location.StringValue)]
@@ -137,7 +150,60 @@ def _find_value(key, name):
     raise KeyError(name)
 
 
+def _run_bank_op(plan):
+    res = new_result()
+    r = plans.rng_for(plan["seed"], PROP + "-image")
+    key = plan["bank"]
+    lib = memsim.BANKS[key]
+    bank = memsim.make_model(key, r, lock=plan["lock"], pattern="random")
+    others = [memsim.make_model(k_, r) for k_ in ("1", "207", "205" if key != "205" else "206")]
+    unit = memsim.make_unit(plan["kind"], plan["short"], [bank] + others)
+    unit.dtr1 = plan["dtr1"]
+    bus = busim.Bus([unit])
+    log = EventLog()
+    before = {b.number: list(b.cells) for b in [bank] + others}
+    addr = memsim.addr_obj(plan["kind"], plan["short"])
+    op = plan["bank_op"]
+    try:
+        sr = busim.run_sequence((lib.latch if op == "latch" else lib.unlatch)(addr), bus, cap=60, log=log)
+    except Exception as e:                      # noqa: BLE001
+        sr = busim.SeqRun()
+        sr.status, sr.exc = "raise", e
+    want = 0xAA if op == "latch" else 0xFF
+    vs = []
+    if sr.status != "return":
+        vs.append(Violation(PROP, "bank-helper-failed", "BANK_%s.%s(): %s %r" % (key, op, sr.status, sr.exc),
+                            driver="bank_op", site=op))
+    else:
+        if bank.cells[2] != want:
+            vs.append(Violation(PROP, "silent-write-failure", "BANK_%s.%s() returned normally (unit's DTR1 was %d beforehand): "
+                                "the bank's lock byte is %#x, not %#x" % (key, op, plan["dtr1"], bank.cells[2], want),
+                                driver="bank_op", site=op))
+        for b in [bank] + others:
+            ch = [a for a in range(256) if b.cells[a] != before[b.number][a] and not (b is bank and a == 2)]
+            if ch:
+                vs.append(Violation(PROP, "other-location-changed", "BANK_%s.%s(): bank %d location(s) %s changed" % (
+                    key, op, b.number, [hex(a) for a in ch[:4]]), driver="bank_op", site=op))
+                break
+    for x in vs:
+        add_violation(res, x)
+    res["digest"] = log.digest()
+    res["shape"] = log.digest()[:16] + "|" + op
+    res["events"] = len(log)
+    res["vtime_s"] = bus.t_us * 1e-6
+    res["nontrivial"] = plan["dtr1"] != bank.number
+    res["probes"] = {"bank-" + op: 1}
+    res["faults"] = {}
+    res["_steps"], res["_nwrites"] = 0, 0
+    if res["violations"]:
+        res["plan"] = plan
+    res["sample"] = None
+    return res
+
+
 def run_plan(plan):
+    if plan.get("bank_op"):
+        return _run_bank_op(plan)
     res = new_result()
     r = plans.rng_for(plan["seed"], PROP + "-image")
     key = plan["bank"]
@@ -220,17 +286,17 @@ def run_plan(plan):
             V("over-long-data-accepted", "%s.%s.write_raw(%d bytes for %d locations, allow_short_write=%s): %s after %d commands" % (
                 key, v.name, len(plan["via"][1]), len(v.locations), plan["via"][2], sr.status, sr.steps),
               site="allow-short-write" if plan["via"][2] else "plain")
-    if plan.get("via") and plan["via"][0] in ("int-bad", "raw-too-long"):
-        if plan["via"][0] == "int-bad":
-            probes["value-level-write-out-of-range"] = 1
+    if plan.get("via") and plan["via"][0] in ("int-bad", "raw-too-long", "noconv"):
+        if plan["via"][0] in ("int-bad", "noconv"):
+            probes["value-level-write-out-of-range" if plan["via"][0] == "int-bad" else "value-level-write-without-conversion"] = 1
         if plan["via"][0] == "raw-too-long":
             pass
         elif sr.status != "raise":
-            V("out-of-range-value-accepted", "%s.%s.write(%d): %s; the %d location(s) now hold %s" % (
+            V("out-of-range-value-accepted", "%s.%s.write(%r): %s; the %d location(s) now hold %s" % (
                 key, v.name, plan["via"][1], sr.status, len(v.locations),
-                [bank.cells[l.address] for l in v.locations]), site="accepted")
+                [bank.cells[l.address] for l in v.locations]), site="accepted" if plan["via"][0] == "int-bad" else "no-conversion")
         elif sr.steps:
-            V("out-of-range-value-accepted", "%s.%s.write(%d): refused only after %d commands" % (
+            V("out-of-range-value-accepted", "%s.%s.write(%r): refused only after %d commands" % (
                 key, v.name, plan["via"][1], sr.steps), site="refused-late")
         if [a for a in range(256) if bank.cells[a] != before[bank.number][a]]:
             V("other-location-changed", "%s.%s: refused input %r changed the unit's memory" % (key, v.name, plan["via"][1]),
